@@ -78,6 +78,7 @@ def cases(ctx):
     for h in (KANI_THOROUGH if ctx.tier == "thorough" else KANI_QUICK):
         out.append({"id": "kani|%s" % h, "kind": "kani", "harness": h, "weight": 1000})
     out.append({"id": "fold|from_str folds every (coefficient, exponent) pair correctly", "kind": "fold", "weight": 30})
+    out.append({"id": "wiring|TryFrom<&str> and TryFrom<String> hand their argument to from_str", "kind": "wiring", "weight": 2})
     sh = shapes(ctx)
     for i in range(0, len(sh), 25):
         out.append({"id": "shapes|%d" % i, "kind": "shapes", "shapes": sh[i:i + 25], "weight": 20})
@@ -161,6 +162,30 @@ def run_case(ctx, case):
     f = get_fn(prog, "from_str", ["&str"], "Result<Decimal, ParseDecimalError>")
     if case["kind"] == "fold":
         return run_fold(ctx, prog, res, f)
+    if case["kind"] == "wiring":
+        # TryFrom<&str> / TryFrom<String>: the result is from_str's result on the very same string (from_str uninterpreted here; it is the
+        # subject of every other case of this check)
+        for pty in ("&str", "String"):
+            tf = get_fn(prog, "try_from", [pty], "Result<Decimal, ParseDecimalError>")
+            lit = StrV("<symbolic literal>")
+            token = Opaque("from_str-result")
+            calls = []
+
+            def c_from_str(ex, st_, fr, callee, args, calls=calls, token=token):
+                if "FromStr" not in callee and not callee.endswith("Decimal::from_str"):
+                    return NotImplemented
+                calls.append(BI._deref_all(ex, st_, args[0]))
+                return token
+            ex = new_executor(ctx, prog, contracts={"from_str": c_from_str})
+            outs = ex.explore(start_state(tf, [lit]))
+            res.absorb(ex, outs)
+            res.d["vcs"] += 1
+            res.d["distinct"] += ["wiring|try_from(%s)" % pty, "wiring|try_from(%s)|arg" % pty]
+            if len(outs) == 1 and outs[0].kind == "return" and outs[0].value is token and len(calls) == 1 and calls[0] is lit:
+                res.d["discharged"] += 1
+            else:
+                res.d["violations"].append({"vc": "wiring|try_from(%s)" % pty, "inputs": {}, "info": {"kind": "wiring", "pty": pty}})
+        return res.done()
     for si, shape in enumerate(case["shapes"]):
         st = State()
         lit, digs = build_literal(st, shape, "d")
@@ -271,6 +296,15 @@ def text_of(info, inputs):
 
 def replay(ctx, native, v):
     info = v["info"]
+    if info["kind"] == "wiring":
+        bad = []
+        for text in ["-17.5", "1e3", "0.000", "abc", "1e+", ".5", "340282366920938463463374607431768211456", "+0012.50e-3"]:
+            h = text.encode().hex()
+            a = native["dev"].ask("5 %s %s" % ("try_from_str" if info["pty"] == "&str" else "try_from_string", h))
+            b = native["dev"].ask("5 from_str %s" % h)
+            if a != b:
+                bad.append((text, a, b))
+        return {"reproduced": bool(bad), "line": "5 try_from_str|try_from_string <hex>", "observed": bad[:3], "expected": "the result of from_str on the same text", "profile": "dev"}
     if info["kind"] == "fold":
         c, e = v["inputs"]["c"], v["inputs"]["e"]
         if abs(e) > 60:
